@@ -672,7 +672,15 @@ def subject_pr_multi(r, nr):
         groups = [groups[0], groups[1][:1], groups[1][1:]]
     voi = []
     for g in groups:
-        ref = hd.ReferencedImageSequence(referenced_images=[img], referenced_frame_number=g if len(g) > 1 or r.random() < 0.5 else g[0])
+        form = r.choice(['list', 'list', 'multivalue'])     # the container the frame numbers come in (a tuple is refused: int(tuple))
+        if form == 'tuple':
+            gg = tuple(g)
+        elif form == 'multivalue':
+            from pydicom.multival import MultiValue
+            gg = MultiValue(int, list(g))
+        else:
+            gg = list(g)
+        ref = hd.ReferencedImageSequence(referenced_images=[img], referenced_frame_number=gg if len(g) > 1 or r.random() < 0.5 else g[0])
         voi.append(pr.SoftcopyVOILUTTransformation(window_center=fnum(r, 40.0), window_width=fnum(r, 400.0), referenced_images=ref))
 
     def call(referenced_images, voi_lut_transformations):
@@ -896,6 +904,17 @@ def vary_containers(inputs, r):
             elif f == 'sequence':
                 inputs[k] = _Seq(v)
             forms[k] = f
+        elif type(v) is list and v and all(isinstance(i, (int, float)) and not isinstance(i, bool) for i in v):
+            # a list of numbers: also as tuple / numpy array / pydicom MultiValue (what an attribute of a parsed data set holds)
+            f = r.choice(['list', 'list', 'tuple', 'ndarray', 'multivalue'])
+            if f == 'tuple':
+                inputs[k] = tuple(v)
+            elif f == 'ndarray':
+                inputs[k] = np.array(v)
+            elif f == 'multivalue':
+                from pydicom.multival import MultiValue
+                inputs[k] = MultiValue(type(v[0]), list(v))
+            forms[k] = 'numbers:' + f
     return forms
 
 
